@@ -1,5 +1,6 @@
 """ Module for node in the peptide graph """
 from __future__ import annotations
+import itertools
 import copy
 from functools import cmp_to_key
 from collections import deque
@@ -40,6 +41,14 @@ class PVGNode():
           collapsed with a canonical peptide node, the upstream node will be
           called for miscleaved peptides that has corresponding INDELs.
     """
+    _serial_counter = itertools.count()
+
+    def __hash__(self):
+        """ Nodes are kept in sets. Hash by creation order instead of by
+        memory address, so that the iteration order of those sets (and thus
+        the result) does not vary from run to run. """
+        return self._serial
+
     def __init__(self, seq:aa.AminoAcidSeqRecordWithCoordinates,
             reading_frame_index:int, subgraph_id:str,
             variants:List[seqvar.VariantRecordWithCoordinate]=None,
@@ -53,6 +62,7 @@ class PVGNode():
             left_cleavage_pattern_end:int=None, right_cleavage_pattern_start:int=None
             ):
         """ Construct a PVGNode object. """
+        self._serial = next(PVGNode._serial_counter)
         self.seq = seq
         self.variants = variants or []
         self.in_nodes = in_nodes or set()
